@@ -21,6 +21,10 @@ var gen int64
 // NoteRelease tells blocked lockers that a lock may have been released.
 func NoteRelease() { atomic.AddInt64(&gen, 1) }
 
+// EINTRBudget, while positive, makes a blocking flock that would have to wait return EINTR instead (once per unit):
+// what a signal without SA_RESTART arriving on the waiting thread does.  The caller holds nothing and has to ask again.
+var EINTRBudget int64
+
 // FlockHook, if set, observes every flock call: phase is "try", "acquired", "wouldblock", "unlock".
 var FlockHook func(fd int, how int, phase string)
 
@@ -56,6 +60,10 @@ func Flock(fd int, how int) error {
 		}
 		if FlockHook != nil {
 			FlockHook(fd, how, "wouldblock")
+		}
+		if atomic.LoadInt64(&EINTRBudget) > 0 {
+			atomic.AddInt64(&EINTRBudget, -1)
+			return syscall.EINTR
 		}
 		seen := atomic.LoadInt64(&gen)
 		s.Point(op+"-blocked", "", func() bool { return atomic.LoadInt64(&gen) != seen })
